@@ -421,6 +421,38 @@ func run(p Prog) *prog.Result {
 		}
 		preOK = preOK && acc
 	}
+	interleaved := "none"
+	if len(pre) > 0 && pre[0].SSVType == "consensus" {
+		// history rules: something harmless between the earlier message and the rule-breaking one must not make the
+		// validator forget what the signer already sent. Its own acceptance is not required.
+		last := pre[len(pre)-1]
+		signer := uint64(0)
+		if sg := signersOf(mut.env, &last); len(sg) > 0 {
+			signer = sg[0]
+		}
+		var mid *vmsg.Spec
+		switch (p.Arg / 7) % 4 {
+		case 1: // the same signer's post-consensus partial signature for the same duty (same validator, role and slot)
+			x := vmsg.Spec{Topic: "right", EnvSig: "valid", SigKind: "ok", PSigKind: "ok", Just: "none", Val: last.Val, Role: last.Role, SlotRel: last.SlotRel,
+				RecvRelMs: last.RecvRelMs, SSVType: "partial", PSigner: signer, PCount: 1, EnvOp: signer}
+			mid, interleaved = &x, "own-partial-signature-same-slot"
+		case 2: // another member's prepare for the same round
+			x := last
+			other := signer%uint64(committeeSize(last.Val)) + 1
+			x.QType, x.Leader, x.Signers, x.Value, x.Just, x.EnvOp = 1, false, []uint64{other}, "", "none", other
+			mid, interleaved = &x, "other-signer-prepare"
+		case 3: // the same signer's message for another role of the same validator (separate per-role state)
+			x := vmsg.Spec{Topic: "right", EnvSig: "valid", SigKind: "ok", PSigKind: "ok", Just: "none", Val: last.Val, Role: (last.Role + 1) % 2, SlotRel: last.SlotRel,
+				RecvRelMs: 4000, SSVType: "consensus", QType: 1, Round: 1, Signers: []uint64{signer}, EnvOp: signer}
+			mid, interleaved = &x, "own-prepare-other-role"
+		}
+		if mid != nil && signer != 0 {
+			if _, _, f := mut.validate(mid, p.Signed); f != nil {
+				res.Fail = f
+				return res
+			}
+		}
+	}
 	base := p.Base
 	twinAcc, twinTxt, f := twin.validate(&base, p.Signed)
 	if f != nil {
@@ -442,7 +474,7 @@ func run(p Prog) *prog.Result {
 		return res
 	}
 	res.NonTrivial = twinAcc // the rejection is due to the mutation: the twin, after the identical prefix, is accepted
-	res.Classes = []string{"rule=" + p.Rule, fmt.Sprintf("twin-accepted=%v", twinAcc), "kind=" + kindOf(&p.Base), "mutant:" + mutTxt}
+	res.Classes = []string{"rule=" + p.Rule, fmt.Sprintf("twin-accepted=%v", twinAcc), "kind=" + kindOf(&p.Base), "mutant:" + mutTxt, "interleaved=" + interleaved}
 	if !twinAcc {
 		res.Classes = append(res.Classes, "twin-refused:"+twinTxt)
 	}
